@@ -18,6 +18,7 @@ from hypothesis import strategies as st
 
 from vlib import urlgrammar as G, transforms as T
 from vlib.core import Campaign, hyp_campaign
+from vlib import fuzz as F
 from checks.c01 import _fix_edges, POSITIONS, carrier, sweep_tokens, _legal
 
 PROPERTY = "C02"
@@ -187,9 +188,19 @@ def _edges(acc, shard, nshards, seed, tier):
                 acc.check(case, True, ["edge-arrangement"] if idx % 7 == 0 else ())
 
 
+def _fuzz_idem(data):
+    u = F.parseable_url_from_bytes(data)
+    return None if u is None else {"kind": "idem", "url": u, "strip_fragment": bool(len(data) & 1)}
+
+
+FUZZ_TARGETS = {"idem": (_fuzz_idem, lambda c: "%" in c["url"] or " " in c["url"] or "/." in c["url"], None)}
+
+
 def campaigns(tier, seed):
     quick = tier == "quick"
     return [
+        Campaign("idem-coverage-guided", F.fuzz_campaign("idem", runs=(2500, 150000), max_len=72, dictionary=F.URL_DICT, corpus=F.URL_CORPUS), "atheris",
+                 bounds="libFuzzer over UTF-8 strings <= 72 bytes that ural's preprocessing parses (others skipped); idempotence and the four mode round trips"),
         Campaign("edge-arrangements", _edges, "enumeration", exhaustive=True,
                  bounds="%d URLs x 10 whitespace x 9 control characters x 7 arrangements at the two ends" % len(EDGE_URLS)),
         Campaign("idem-token-sweep", _sweep, "enumeration", exhaustive=True,
